@@ -3,6 +3,7 @@ import itertools
 from fractions import Fraction as F
 
 from lib import configs, econ, flatcorr, framework as fw, runner
+from props import C03
 
 META = {
     'props': 'Props/C16.v',
@@ -102,12 +103,22 @@ def whole_runs(ctx):
     construction years) against product_schedule applied to the run's own price / PTC inputs."""
     rnd = ctx.rng
     cfgs = [configs.synthetic(rnd, addons=False) for _ in range(ctx.n(60, 1500))]
+    for _ in range(ctx.n(8, 100)):   # user-fixed totals together with fees / tax relief / grants
+        c = [(k, v) for k, v in configs.synthetic(rnd, addons=False) if k not in ('Total O&M Cost', 'Total Capital Cost', 'Annual License Fees Etc',
+                                                                                  'Tax Relief Per Year', 'One-time Grants Etc')]
+        c += [('Total O&M Cost', configs.fmt(configs.dec(rnd, 1, 6, 2))), ('Annual License Fees Etc', configs.fmt(configs.dec(rnd, 0.05, 0.5, 2))),
+              ('Tax Relief Per Year', configs.fmt(configs.dec(rnd, 0.05, 0.5, 2)))]
+        if rnd.random() < 0.5:
+            c += [('Total Capital Cost', configs.fmt(configs.dec(rnd, 20, 150, 1))), ('One-time Grants Etc', configs.fmt(configs.dec(rnd, 0.5, 8, 2)))]
+        cfgs.append(c)
     texts = [runner.params_to_text(c) for c in cfgs] + [t for _, t in configs.example_texts(slow=False)]
-    cases, itc_terms, itc_owner = [], [], []
+    cases, itc_terms, itc_owner, fee_terms, fee_owner = [], [], [], [], []
     for text, r in zip(texts, runner.run_many(ctx, texts)):
-        if not r['ok'] or r['snap'] is None:
+        if r['snap'] is None:
             ctx.count('price-columns', rejected={(r['error'] or 'no snapshot')[:50]: 1})
             continue
+        if not r['ok']:   # the schedules are complete once Calculate() has returned; a later failure (report writer) does not hide them
+            ctx.count('price-columns', failed_after_calculate={(r['error'] or '')[:50]: 1})
         R = econ.Run(r['snap'])
         if R.cls not in ('Economics', 'SBTEconomics'):
             continue
@@ -118,6 +129,13 @@ def whole_runs(ctx):
         itc_terms.append(f'close_scale (1#1000000000) {pre} ({rate} * {pre}) {q(P("RITCValue")["value"])}')
         itc_owner.append((text, {'RITC': P('RITC')['value'], 'provided': bool(P('RITC')['provided']), 'RITCValue': P('RITCValue')['value'],
                                  'CCap': P('CCap')['value'], 'grant': P('TotalGrant')['value']}))
+        try:   # grants, incentives, fees and tax relief: the whole roll-up of the run against Model/Costs.v (shared with C03)
+            ct, _flags, _int, _out = C03.cost_record(R)
+            fee_terms.append(ct)
+            fee_owner.append((text, {'AnnualLicenseEtc': P('AnnualLicenseEtc')['value'], 'TaxRelief': P('TaxRelief')['value'],
+                                     'oam_total_fixed': bool(P('oamtotalfixed')['valid']), 'Coam': P('Coam')['value']}))
+        except KeyError:
+            pass
         for prod, ptc in (('Elec', 'PTCElec'), ('Heat', 'PTCHeat'), ('Cooling', 'PTCCooling'), ('Carbon', None)):
             prov = bool(P(ptc)['provided']) if ptc else False
             flat = [F(R.life), F(int(prov)), F(int(P('PTCDuration')['value'])), F(P(ptc)['value']) if ptc else F(0),
@@ -139,6 +157,12 @@ def whole_runs(ctx):
     for i in bad[:3]:
         ctx.violate('property', 'itc:value', f'RITCValue is not rate x pre-credit capital cost on {itc_owner[i][1]}',
                     inp={'part': 'price-columns', 'desc': itc_owner[i][1], 'input_text': itc_owner[i][0]})
+    bad = fw.kernel_bools(ctx, 'fees', ['Model.Costs'], fee_terms, shard=150)
+    ctx.count('fees-tax-relief', evaluations=len(fee_terms),
+              nontrivial_keys=[('fee', o[1]['oam_total_fixed']) for o in fee_owner if o[1]['AnnualLicenseEtc'] or o[1]['TaxRelief']])
+    for i in bad[:3]:
+        ctx.violate('property', 'fees:roll-up', f'capital cost / O&M are not changed by exactly the stated grants, incentives, fees and tax relief on {fee_owner[i][1]}',
+                    inp={'part': 'price-columns', 'desc': fee_owner[i][1], 'input_text': fee_owner[i][0]})
     for v in ctx.violations:
         if v.inp and v.inp.get('part') == 'price-columns' and 'input_text' not in v.inp:
             i = next((j for j in failing if cases[j]['desc'] == v.inp['desc']), None)
